@@ -22,7 +22,7 @@ RULE = ("one fitted model per case (every family/profile; baselines of 365 days 
 ASSUMPTIONS = ["compared on the intersection of rows where both runs produced a finite prediction (a day without usage gets no prediction: C07)",
                "billing: the observed column is altered on the billing reads; the same read calendar is kept"]
 REQUIRED_REACH = {"pair.compared": 60, "pair.rows": 5000, "baseline.covers_all_months_and_weekdays": 6, "alteration.absent": 6, "alteration.all_nan": 6,
-                  "span.with_dst_change": 4}
+                  "span.with_dst_change": 4, "span.with_weather_gaps": 4}
 
 VIOL = []
 
@@ -92,6 +92,16 @@ def run_case(spec):
             o = np.full(days, np.nan)
             o[reads] = base["observed"].to_numpy()[reads] * 30
             base["observed"] = o
+        if fam.kind == "hourly" and sname in ("partial", "month-with-dst"):
+            # gaps in the reporting weather: the data class fills them; the fill must not look at the usage column
+            for col in [c for c in ("temperature", "ghi") if c in base.columns]:
+                hrs = base.index.hour.values
+                cand = np.flatnonzero((hrs >= 8) & (hrs <= 17))
+                kk = rng.choice(cand, size=max(3, len(cand) // 12), replace=False)
+                base.iloc[kk, base.columns.get_loc(col)] = np.nan
+                a = int(rng.integers(24, max(25, len(base) - 80)))
+                base.iloc[a:a + 30, base.columns.get_loc(col)] = np.nan
+            I.reach("span.with_weather_gaps")
         if sname == "month-with-dst" and tz not in ("UTC", "Asia/Kolkata"):
             I.reach("span.with_dst_change")
         try:
